@@ -237,6 +237,107 @@ fn check_program(core: &mut Core, regime: Regime, name: &str, ctx: &mut Ctx) {
   }
 }
 
+
+// ---------------------------------------------------------------- dispatch accounting from every state
+//
+// The generated programs only dispatch from ordinary stack positions.  This stage constructs
+// the state directly: IF x IE x SP (incl. the stack positions where the push lands on IE / IF
+// and cancels or redirects the dispatch) x PC high byte x {running, halted}, executes two
+// steps and compares the device time of each with 4 x (cycles executed + 5 for a dispatch at
+// the end of the first step).
+
+const ACC_SPS: [u16; 8] = [0xDFF0, 0x0000, 0x0001, 0xFF10, 0xFF11, 0xFFFF, 0xC001, 0xFF80];
+const ACC_PCS: [u16; 4] = [0x0150, 0x1F50, 0x0250, 0x0050];
+
+fn acc_rom() -> Vec<u8> {
+  let mut rom = vec![0u8; 0x8000];
+  for g in 0..(0x8000 / 8) {
+    rom[g * 8 + 6] = 0x18; // JR -2 (spins on itself)
+    rom[g * 8 + 7] = 0xFE;
+  }
+  rom
+}
+
+pub fn run_accounting(regime: Regime, workers: usize) -> PoolResult {
+  let total = 32u64 * 32; // case = (IF, IE); inner: SP x PC x halted x IME
+  let opts = PoolOpts { workers, chunk: 8, bitmap_bits: 1 << 12, samples_per_child: 1, ..PoolOpts::default() };
+  run_pool(
+    total,
+    &opts,
+    |_| world::flat_core(acc_rom()),
+    |core, case, ctx| {
+      let iflag = (case & 31) as u8;
+      let ie = ((case >> 5) & 31) as u8;
+      for sp in ACC_SPS.iter() {
+        for pc in ACC_PCS.iter() {
+          for halted in [false, true].iter() {
+            for ime_on in [true, false].iter() {
+              // fresh devices (the PPU raises VBlank once per frame on its own), state in place
+              core.memory.io = crate::devices::io::IO::new();
+              core.memory.oam_dma = None;
+              let mp = &mut core.memory as *mut MemoryAreas;
+              crate::mem::memory_write_byte(mp, 0xFFFF, ie);
+              crate::mem::memory_write_byte(mp, 0xFF0F, iflag);
+              world::set_regs(core, 0x0100, 0, 0, 0xC100, *sp, *pc);
+              core.interrupts_enabled = if *ime_on { InterruptState::Enabled } else { InterruptState::Disabled };
+              core.run_state = if *halted { RunState::Halt } else { RunState::Run };
+              let block = regime == Regime::BlockStepped || cfg!(feature = "jit");
+              // step 1
+              let (c1, _, _, _, _) = if *halted { (1, 0, 0, false, true) } else { predict(core, block) };
+              let (p0, d0) = (ppu_clock(core), div_clock(core));
+              match regime {
+                Regime::InstrStepped => core.update(),
+                Regime::BlockStepped => progrun::step(core),
+              }
+              let (p1, d1) = (ppu_clock(core), div_clock(core));
+              let pending = iflag & ie & 0x1f;
+              let dispatched = *ime_on && pending != 0;
+              let woke = pending != 0;
+              // step 2
+              let still_halted = *halted && !woke;
+              let (c2, _, _, _, _) = if still_halted { (1, 0, 0, false, true) } else { predict(core, block) };
+              match regime {
+                Regime::InstrStepped => core.update(),
+                Regime::BlockStepped => progrun::step(core),
+              }
+              let (p2, d2) = (ppu_clock(core), div_clock(core));
+              let want1 = 4 * c1 as u64;
+              let want2 = 4 * (c2 as u64 + if dispatched { 5 } else { 0 });
+              let got1 = ((p1 + FRAME - p0) % FRAME, (d1 + 65536 - d0) % 65536);
+              let got2 = ((p2 + FRAME - p1) % FRAME, (d2 + 65536 - d1) % 65536);
+              // a push that lands on DIV (none of these SPs) would reset the divider; here both clocks apply
+              ctx.count(1, 2);
+              ctx.count(2, 2);
+              let spc = match *sp {
+                0x0000 => "high-on-IE",
+                0x0001 => "low-on-IE",
+                0xFF10 => "high-on-IF",
+                0xFF11 => "low-on-IF",
+                _ => "ram",
+              };
+              ctx.class(((dispatched as u64) << 8) | ((*halted as u64) << 7) | ((woke as u64) << 6) | ((c2.min(15) as u64) << 2) | (got2.0 == want2) as u64);
+              if got1.0 != want1 || got1.1 != want1 % 65536 || got2.0 != want2 || got2.1 != want2 % 65536 {
+                let which = if got1.0 != want1 || got1.1 != want1 % 65536 { "first-step" } else { "step-after-dispatch" };
+                ctx.violation(&format!("C09 regime={} accounting={} sp={} {}", regime_name(regime), which, spc, if dispatched { "dispatch" } else { "no-dispatch" }), || {
+                  J::obj()
+                    .set("case", J::obj().set("if", J::u(iflag as u64)).set("ie", J::u(ie as u64)).set("sp", J::s(format!("{:04X}", sp))).set("pc", J::s(format!("{:04X}", pc))).set("halted", J::Bool(*halted)).set("ime", J::Bool(*ime_on)).set("regime", J::s(regime_name(regime))))
+                    .set("expected_clocks", J::Arr(vec![J::u(want1), J::u(want2)]))
+                    .set("observed_ppu_clocks", J::Arr(vec![J::u(got1.0), J::u(got2.0)]))
+                    .set("observed_div_clocks", J::Arr(vec![J::u(got1.1), J::u(got2.1)]))
+                    .set("dispatch_expected", J::Bool(dispatched))
+                });
+              }
+            }
+          }
+        }
+      }
+      ctx.count(0, 1);
+      ctx.sample(|| J::obj().set("accounting_state", J::s(format!("IF={:02X} IE={:02X} x 8 SP x 4 PC x halted x IME", iflag, ie))).set("regime", J::s(regime_name(regime))));
+    },
+    |case, how| (format!("C09 regime={} accounting crash={}", regime_name(regime), how), J::obj().set("case", J::obj().set("if_ie_case", J::u(case)))),
+  )
+}
+
 pub fn run_regime(image: &str, tier: &str, stage: usize, regime: Regime, workers: usize) -> (c04::Plan, PoolResult) {
   let pl = c04::plan(tier, stage);
   let opts = PoolOpts { workers, chunk: 4, bitmap_bits: 1 << 12, samples_per_child: 1, ..PoolOpts::default() };
@@ -287,6 +388,13 @@ pub fn worker(args: &[String]) -> i32 {
     let stage: usize = args[2].parse().unwrap_or(0);
     let (_pl, r) = run_regime(&args[3], &args[1], stage, Regime::BlockStepped, crate::util::pool::default_workers());
     if std::fs::write(&args[4], meta_of(&r).to_string()).is_err() {
+      return 2;
+    }
+    return 0;
+  }
+  if args.len() >= 2 && args[0] == "accounting" {
+    let r = run_accounting(Regime::BlockStepped, 3);
+    if std::fs::write(&args[1], meta_of(&r).to_string()).is_err() {
       return 2;
     }
     return 0;
@@ -363,6 +471,42 @@ pub fn run(tier: &str) -> i32 {
         rep.distinct += meta.int_of("distinct") as u64;
       },
       Err(e) => rep.machinery_error(e),
+    }
+  }
+  // ---- dispatch accounting from constructed states, all three regimes
+  {
+    let out = format!("{}/c09_jit_acc.json", tmp);
+    let child = std::process::Command::new(&jit_bin).args(&["C09", "--worker", "accounting", &out]).spawn();
+    for regime in [Regime::InstrStepped, Regime::BlockStepped].iter() {
+      let r = run_accounting(*regime, 6);
+      let c = rep.add_stage(&format!("{}-dispatch-accounting", regime_name(*regime)), "IF (32) x IE (32) x SP in {DFF0, 0000, 0001, FF10, FF11, FFFF, C001, FF80} x PC in {0150, 1F50, 0250, 0050} x {running, halted} x IME {on, off}: two steps each, device time vs 4 x (cycles + 5 per dispatch)", r);
+      steps += c[1];
+      judged += c[2];
+    }
+    match child {
+      Ok(ch) => match ch.wait_with_output() {
+        Ok(o) if o.status.success() => match progrun::parse_json_file(&out) {
+          Ok(meta) => {
+            if let Some(vs) = meta.get("violations").and_then(|v| v.as_arr()) {
+              for v in vs {
+                rep.add_violation(&v.str_of("key"), v.get("detail").cloned().unwrap_or(J::Null));
+              }
+            }
+            if let Some(ms) = meta.get("machinery").and_then(|v| v.as_arr()) {
+              for m in ms {
+                rep.machinery_error(format!("jit worker: {}", m.as_str().unwrap_or("")));
+              }
+            }
+            steps += meta.int_of("steps") as u64;
+            judged += meta.int_of("judged") as u64;
+            rep.stages.push(J::obj().set("stage", J::s("jit-block-dispatch-accounting")).set("steps", J::u(meta.int_of("steps") as u64)).set("distinct_outcome_classes", J::u(meta.int_of("distinct") as u64)));
+            rep.distinct += meta.int_of("distinct") as u64;
+          },
+          Err(e) => rep.machinery_error(e),
+        },
+        other => rep.machinery_error(format!("jit accounting worker failed: {:?}", other.map(|o| o.status))),
+      },
+      Err(e) => rep.machinery_error(format!("cannot start jit worker: {}", e)),
     }
   }
   let _ = std::fs::remove_file(&image);
